@@ -103,7 +103,24 @@ func runC20(r *Run) {
 	must(os.MkdirAll(dir, 0o755))
 	const interval = 40 * time.Millisecond
 	settle := func() { time.Sleep(7 * interval) }
-	nScen := scale(r, 14, 300)
+	// directed openings: the CA file as it is when the settings are first loaded (a CA, empty, not PEM) x every way of
+	// spelling skip-verify; the rest of each scenario is random as usual
+	type opening struct {
+		content string
+		s       tlsSetting
+	}
+	var openings []opening
+	for _, c0 := range []string{"", "junk", "CA-A"} {
+		for _, sk := range []string{"u", "b1", "b0", "s:true", "s:junk"} {
+			openings = append(openings, opening{c0, tlsSetting{Kind: "file", File: "f1", Skip: sk, Interval: interval}})
+		}
+	}
+	for _, ca := range []string{"CA-A", "junk"} {
+		for _, sk := range []string{"b1", "s:1", "u"} {
+			openings = append(openings, opening{"CA-A", tlsSetting{Kind: "inline", CA: ca, File: "f1", Skip: sk, Interval: interval}})
+		}
+	}
+	nScen := scale(r, 6, 300) + len(openings)
 	for sc := 0; sc < nScen && r.unknownViolations() == 0; sc++ {
 		ctx, cancel := context.WithCancel(context.Background())
 		pool := internal.NewTLSConfigPool(ctx)
@@ -117,8 +134,13 @@ func runC20(r *Run) {
 			r.Emit("tls rewrite "+hx(path(f))+" "+hx(name), "ok")
 			fileNow[f] = name
 		}
-		write("f1", "CA-A")
-		write("f2", pick(r.Rng, []string{"CA-B", "CA-A"}))
+		// a CA file may exist but be empty when the settings are loaded (a mounted secret that is populated later)
+		if sc < len(openings) {
+			write("f1", openings[sc].content)
+		} else {
+			write("f1", pick(r.Rng, []string{"CA-A", "CA-A", "CA-A", ""}))
+		}
+		write("f2", pick(r.Rng, []string{"CA-B", "CA-A", ""}))
 		type loaded struct {
 			s      tlsSetting
 			client *http.Client
@@ -163,12 +185,18 @@ func runC20(r *Run) {
 			}
 		}
 		nEv := 4 + r.Rng.Intn(5)
+		if sc < len(openings) {
+			nEv = 3
+		}
 		for e := 0; e < nEv; e++ {
 			switch k := r.Rng.Intn(10); {
 			case k < 5 || len(ls) == 0:
 				s := tlsSetting{Kind: pick(r.Rng, []string{"none", "inline", "file", "file", "file"}), CA: pick(r.Rng, []string{"CA-A", "CA-B", "junk"}),
 					File: pick(r.Rng, []string{"f1", "f1", "f2"}), Skip: pick(r.Rng, []string{"u", "u", "b1", "b0", "s:true", "s:false", "s:junk", "s:1"}),
 					Interval: pick(r.Rng, []time.Duration{interval, interval, 0, interval + 10*time.Millisecond})}
+				if sc < len(openings) && e == 0 {
+					s = openings[sc].s
+				}
 				oc := &oidcv1.OIDCConfig{}
 				switch s.Kind {
 				case "inline":
@@ -257,11 +285,11 @@ func runC20(r *Run) {
 				ls = append(ls, ld)
 				history = append(history, map[string]any{"load": s})
 			case k < 8:
-				f, name := pick(r.Rng, []string{"f1", "f2"}), pick(r.Rng, []string{"CA-A", "CA-B", "CA-B", "junk"})
+				f, name := pick(r.Rng, []string{"f1", "f2"}), pick(r.Rng, []string{"CA-A", "CA-B", "CA-B", "junk", ""})
 				write(f, name)
 				history = append(history, map[string]any{"rewrite": f, "content": name})
 				settle()
-				if name != "junk" {
+				if name != "junk" && name != "" { // content that does not parse (or is empty) is ignored by a reload
 					for i := range ls {
 						if ls[i].s.Kind == "file" && ls[i].s.File == f && ls[i].s.Interval > 0 {
 							ls[i].refCA = name
